@@ -300,10 +300,33 @@ def smooth_worker(part, job):
                 big[::2, ::2, ::2] = vol
                 variants = (("fortran", np.asfortranarray(vol)), ("float64", vol.astype(np.float64)), ("strided", big[::2, ::2, ::2]),
                             ("transposed-view", np.ascontiguousarray(vol.transpose(2, 1, 0)).transpose(2, 1, 0)))
-                for lname, v in variants:
+                # ... and the same field measured in other units: samples and level multiplied by a power of two (exact in float32) have
+                # the same level set - fields of order 1e-5 (a density in other units), 1e-7, 1e6; below ~1e-9 the compiled kernel's absolute 2.2e-16 guard in its denominators moves vertices by 1e-6 of a cell, which exact comparison would flag and the property does not forbid
+                variants = tuple((n_, v_, lev) for n_, v_ in variants) + tuple(
+                    ("scaled-2^%d" % e_, (vol.astype(np.float64) * 2.0 ** e_).astype(np.float32), lev * 2.0 ** e_) for e_ in (-17, -24, -30, 20))
+                for lname, v, lev_v in variants:
                     part.ev()
                     part.tr()
-                    got = oriented_triangles(*call_mc(v, lev, spacing, direction)[:2])
+                    if lname.startswith("scaled"):
+                        # (the compiled kernel guards its denominators with an absolute 2.2e-16, which moves vertices by up to ~1e-6 of a cell once
+                        # the field is of order 1e-9: same triangles, vertices within 1e-4 of a grid step)
+                        if has_face_tie(v, lev_v) and not has_face_tie(vol, lev):
+                            # ... and the same guard turns every ambiguous cell face of a field below ~2e-7 into a "tie" (A*C - B*D is of
+                            # order 1e-15 there), which the kernel may resolve either way: still a closed oriented mesh (checked above for
+                            # the unscaled field), but not comparable triangle by triangle
+                            part.count("scaled_fields_with_kernel_ties")
+                            continue
+                        v0_, f0_ = call_mc(vol, lev, spacing, direction)[:2]
+                        v1_, f1_ = call_mc(v, lev_v, spacing, direction)[:2]
+                        if np.asarray(f0_).shape != np.asarray(f1_).shape or not np.array_equal(np.asarray(f0_), np.asarray(f1_)) \
+                                or not (np.abs(np.asarray(v0_) - np.asarray(v1_)).max() <= 1e-4 * max(spacing)):
+                            part.fail("magnitude-dependence:%s" % direction, "the mesh of the same field in other units (samples and level times %s): %s"
+                                      % (lname[7:], "%d faces instead of %d" % (len(f1_), len(f0_)) if np.asarray(f0_).shape != np.asarray(f1_).shape else
+                                         "vertices move by %.3g grid steps" % float(np.abs(np.asarray(v0_) - np.asarray(v1_)).max() / max(spacing))
+                                         if np.array_equal(np.asarray(f0_), np.asarray(f1_)) else "other triangles"), dict(case, layout=lname))
+                        part.outcome(("layout", lname, direction))
+                        continue
+                    got = oriented_triangles(*call_mc(v, lev_v, spacing, direction)[:2])
                     if got != base:
                         part.fail("layout-dependence:%s:%s" % (lname, direction), "the mesh of identical samples changes with the array's memory layout / dtype (%s): %d of %d oriented triangles differ"
                                   % (lname, len(set(got) ^ set(base)), len(base)), dict(case, layout=lname))
